@@ -1,9 +1,11 @@
 //! rre-verif: runtime-monitoring harness for rust-rule-engine (see /verif/DESIGN.md).
 pub mod child;
+pub mod clock;
 pub mod core;
 pub mod pan;
 pub mod quiet;
 pub mod rng;
+pub mod sched;
 
 pub use crate::core::*;
 pub use crate::rng::Rng;
